@@ -339,6 +339,10 @@ func (k *TGSRep) Verify(cfg *config.Config, tgsReq TGSReq) (bool, error) {
 	if k.Ticket.Realm != tgsReq.ReqBody.Realm {
 		return false, krberror.NewErrorf(krberror.KRBMsgError, "realm in response ticket does not match what was requested. Requested: %s; Reply: %s", tgsReq.ReqBody.Realm, k.Ticket.Realm)
 	}
+	if !k.Ticket.SName.Equal(k.DecryptedEncPart.SName) {
+		// the ticket's own name field is not protected: the ticket is cached, and recognised as a referral, under the name sealed in the reply
+		return false, krberror.NewErrorf(krberror.KRBMsgError, "SName in response ticket does not match the SName in the encrypted part. Ticket: %v; Reply: %v", k.Ticket.SName, k.DecryptedEncPart.SName)
+	}
 	if k.DecryptedEncPart.Nonce != tgsReq.ReqBody.Nonce {
 		return false, krberror.NewErrorf(krberror.KRBMsgError, "possible replay attack, nonce in response does not match that in request")
 	}
